@@ -27,7 +27,8 @@ FORMAT_THEOREMS = [
 
 HOLDER_THEOREMS = [
     "C15_site_target_kernel", "C15_site_method_loc_kernel", "C15_site_unpack_static", "C15_codec_creation_frame",
-    "C15_codec_holders_disjoint", "C15_frame_history_holders", "C15_selfref_codec_refuted", "C15_selfref_codec_late",
+    "C15_codec_holders_disjoint", "C15_codec_complete", "C15_decoder_creation_frame_complete",
+    "C15_frame_history_holders", "C15_selfref_codec_refuted", "C15_selfref_codec_late",
 ]
 
 CASE_TYPE = "env * (bool * mode * opts) * ty * val * res val"
